@@ -1,10 +1,21 @@
 """C02 handover: theorems in props/C02.v; adoption table + random phases, monitor on every apply."""
+import json
 import phasecheck as pc
+import setcheck, vlib
+
+CONTROLLER_ID = "C02 (Cluster)ObjectSet controller: adoption from a higher revision, revision lowered, apply over an unread object, or not exactly one controller"
 
 
 def check(run, tier, seed, replay=None):
+    rsc = json.load(open(replay))["replay"]["scenario"] if replay else None
+    if rsc is not None and "target" in rsc:
+        vlib.std_proof_stage(run, "C02")
+        setcheck.controller_stage(run, "C02", tier, seed, "judge02s", CONTROLLER_ID, replay_sc=rsc)
+        return
     scs = pc.table(tier) + pc.random_phases(seed + 1, 400 if tier == "quick" else 8000)
     pc.phase_check(run, "C02", tier, seed, replay, scs, "C02Corr.judge",
                    lambda sc, obs: "C02 adoption from a higher revision, lowered revision, or more/less than one controller after handover",
                    "adoption table and seeded random multi-object phases (handover states: previous direct / via remote phase / "
                    "demoted / stale uid / foreign), both strategies", faults=True)
+    if not replay:
+        setcheck.controller_stage(run, "C02", tier, seed, "judge02s", CONTROLLER_ID)
